@@ -641,7 +641,7 @@ func init() {
 		}
 		return errClass(d.Put(ctx, key, val, o.api()...))
 	}))
-	register("c.get", clusterOp(func(m *member, path, name string, a []string) string {
+	doGet := func(m *member, path, name string, a []string) string {
 		key := string(unhx(a[0]))
 		ctx, cancel := opCtx()
 		defer cancel()
@@ -684,7 +684,9 @@ func init() {
 			return errClass(err)
 		}
 		return hx(b)
-	}))
+	}
+	register("c.get", clusterOp(doGet))
+	register("c.getf", clusterOp(doGet)) // a key the model does not mirror (float counters)
 	// getx: value with ttl and timestamp (embedded / cluster client only)
 	register("c.getx", clusterOp(func(m *member, path, name string, a []string) string {
 		key := string(unhx(a[0]))
@@ -782,7 +784,7 @@ func init() {
 		}
 		return errClass(d.Expire(ctx, key, time.Duration(ms)*time.Millisecond))
 	}))
-	register("c.getput", clusterOp(func(m *member, path, name string, a []string) string {
+	doGetPut := func(m *member, path, name string, a []string) string {
 		key, val := string(unhx(a[0])), unhx(a[1])
 		ctx, cancel := opCtx()
 		defer cancel()
@@ -817,9 +819,10 @@ func init() {
 			return errClass(err)
 		}
 		return hx(b)
-	}))
-	incdec := func(opname string) handler {
-		return clusterOp(func(m *member, path, name string, a []string) string {
+	}
+	register("c.getput", clusterOp(doGetPut))
+	doIncDec := func(opname string) func(m *member, path, name string, a []string) string {
+		return func(m *member, path, name string, a []string) string {
 			key := string(unhx(a[0]))
 			delta := atoi(a[1])
 			ctx, cancel := opCtx()
@@ -849,10 +852,162 @@ func init() {
 				return errClass(err)
 			}
 			return strconv.Itoa(n)
-		})
+		}
 	}
-	register("c.incr", incdec("incr"))
-	register("c.decr", incdec("decr"))
+	register("c.incr", clusterOp(doIncDec("incr")))
+	register("c.decr", clusterOp(doIncDec("decr")))
+	// incrf <path> <i> <dmap> <keyhex> <delta>: IncrByFloat (deltas are dyadic rationals: float arithmetic on them is exact)
+	doIncrF := func(m *member, path, name string, a []string) string {
+		key := string(unhx(a[0]))
+		delta, _ := strconv.ParseFloat(a[1], 64)
+		ctx, cancel := opCtx()
+		defer cancel()
+		var v float64
+		var err error
+		if path == "raw" {
+			v, err = cl.rawc(m).Do(ctx, "DM.INCRBYFLOAT", name, key, a[1]).Float64()
+		} else {
+			d, derr := cl.dmap(m, path, name)
+			if derr != nil {
+				return errClass(derr)
+			}
+			v, err = d.IncrByFloat(ctx, key, delta)
+		}
+		if err != nil {
+			return errClass(err)
+		}
+		return strconv.FormatFloat(v, 'f', -1, 64)
+	}
+	register("c.incrf", clusterOp(doIncrF))
+	atomOp := func(op string) func(m *member, path, name string, a []string) string {
+		switch op {
+		case "getput":
+			return doGetPut
+		case "incrf":
+			return doIncrF
+		}
+		return doIncDec(op)
+	}
+	// c.atomx <path> <i> <dmap> <keyhex> <op1> <arg1> -- <path2> <i2> <op2> <arg2>   (op = incr | decr | getput)
+	// The second operation is started at the yield point between the read and the write of the first one
+	// (verifhook.At("atomic.read")).  If it cannot complete there within 300 ms it is "blocked" (it waits for the
+	// first one, as it must); its result is collected after the first one returned.
+	// Reply: "<result1> inner=<ran:result2 | blocked:result2 | ->"
+	atomx := clusterOp(func(m *member, path, name string, a []string) string {
+		key, op1, arg1, rest := a[0], a[1], a[2], a[4:]
+		innerCh := make(chan string, 1)
+		state := "-"
+		verifhook.SetPoint("atomic.read", func() {
+			verifhook.SetPoint("atomic.read", nil)
+			m2 := cl.members[atoi(rest[1])]
+			go func() { innerCh <- atomOp(rest[2])(m2, rest[0], name, []string{key, rest[3]}) }()
+			select {
+			case r := <-innerCh:
+				state = "ran:" + r
+			case <-time.After(300 * time.Millisecond):
+				state = "blocked"
+			}
+		})
+		r := atomOp(op1)(m, path, name, []string{key, arg1})
+		verifhook.SetPoint("atomic.read", nil)
+		if state == "blocked" {
+			state = "blocked:" + <-innerCh
+		}
+		return r + " inner=" + state
+	})
+	register("c.atomx", atomx)
+	register("c.atomxf", atomx) // the same with IncrByFloat operations (not mirrored by the model)
+	// c.atomrace <dmap> <keyhex> <clients> <iters> <incr|getput>: real concurrency through all members and client kinds
+	register("c.atomrace", func(a []string) string {
+		key := string(unhx(a[1]))
+		n, iters := atoi(a[2]), atoi(a[3])
+		var mu sync.Mutex
+		var wg sync.WaitGroup
+		rets := map[string]int{}
+		errs := 0
+		firstErr := ""
+		for c := 0; c < n; c++ {
+			m := cl.members[c%len(cl.members)]
+			path := []string{"emb", "cli"}[(c/len(cl.members))%2]
+			d, err := cl.dmap(m, path, a[0])
+			if err != nil {
+				return errClass(err)
+			}
+			wg.Add(1)
+			go func(c int) {
+				defer wg.Done()
+				for i := 0; i < iters; i++ {
+					ctx, cancel := context.WithTimeout(ctxBg, 20*time.Second)
+					var r string
+					var err error
+					if a[4] == "incr" {
+						var v int
+						v, err = d.Incr(ctx, key, 1)
+						r = strconv.Itoa(v)
+					} else {
+						var gr *olric.GetResponse
+						gr, err = d.GetPut(ctx, key, fmt.Sprintf("%d:%d", c, i))
+						r = "none"
+						if err == nil && gr != nil {
+							if s, e := gr.String(); e == nil {
+								r = s
+							}
+						}
+					}
+					cancel()
+					mu.Lock()
+					if err != nil {
+						errs++
+						if firstErr == "" {
+							firstErr = errClass(err)
+						}
+					} else {
+						rets[r]++
+					}
+					mu.Unlock()
+				}
+			}(c)
+		}
+		wg.Wait()
+		total := n * iters
+		dup, missing := 0, 0
+		for _, k := range rets {
+			if k > 1 {
+				dup += k - 1
+			}
+		}
+		d0, err := cl.dmap(cl.members[0], "emb", a[0])
+		if err != nil {
+			return errClass(err)
+		}
+		ctx, cancel := opCtx()
+		defer cancel()
+		final := "none"
+		if gr, err := d0.Get(ctx, key); err == nil {
+			final, _ = gr.String()
+		}
+		if a[4] == "incr" {
+			for v := 1; v <= total; v++ {
+				if rets[strconv.Itoa(v)] == 0 {
+					missing++
+				}
+			}
+		} else {
+			// chain: every written value is returned exactly once as an old value, except the final one
+			for c := 0; c < n; c++ {
+				for i := 0; i < iters; i++ {
+					v := fmt.Sprintf("%d:%d", c, i)
+					if rets[v] == 0 && v != final {
+						missing++
+					}
+				}
+			}
+			if rets["none"] != 1 {
+				missing++
+			}
+		}
+		return fmt.Sprintf("total=%d errors=%d dup=%d missing=%d final=%s err=%s", total, errs, dup, missing, hx([]byte(final)), firstErr)
+	})
 	// lock <path> <i> <dmap> <keyhex> <timeout_ms> <deadline_ms> -> token hex | notacquired
 	var doLock func(m *member, path, name string, a []string) string
 	// a Lock that fails with lock-not-acquired must have waited for its whole deadline (real time)
